@@ -8,10 +8,13 @@ ID = 'C17'
 RULE = ('(1) build event: the harness is compiled with the crate feature force-32bits under the crate\'s own lint levels - a failure violates the first clause; '
         '(2) the deterministic workloads of C12, C13, C14 and C15 (X25519, signing, verification verdicts, field programs with equality tests, scalar decoding/reduction, '
         'group operations, table entries) are executed by the default and the force-32bits binaries: outputs must be byte-identical and each must satisfy the specification '
-        'model; distinct = distinct case lines')
+        'model; (3) bulk differential: millions of X25519 / signing / reduction / field / double-scalar calls on derived inputs (random and 00/ff-run patterns) per backend, compared through per-block hashes, differing blocks narrowed to the call and judged by the model, sampled outputs checked against the model; distinct = distinct case lines')
 ASSUMPTIONS = ['force-32bits on x86-64 stands in for a 32-bit target (no arm32 target is installed)', 'spec models of C12-C15']
 FLOORS = {'evaluations': 20000, 'distinct': 8000}
 THOROUGH_ROUNDS = 3   # thorough tier: generator passes with derived seeds (runner.gen_rounds)
+# bulk differential (cxv/bulk.py): (kind, calls per backend, block)
+BULK = {'quick': [('x25519', 1 << 17, 1024), ('x25519_base', 1 << 15, 1024), ('ed_sign', 1 << 15, 512), ('sc_reduce', 1 << 21, 1 << 14), ('fe_mix', 1 << 21, 1 << 14), ('fe_inv', 1 << 16, 1024), ('ge_dsm', 1 << 14, 512)],
+        'thorough': [('x25519', 1 << 25, 4096), ('x25519_base', 1 << 23, 4096), ('ed_sign', 1 << 22, 4096), ('sc_reduce', 1 << 28, 1 << 17), ('fe_mix', 1 << 28, 1 << 17), ('fe_inv', 1 << 24, 1 << 13), ('ge_dsm', 1 << 22, 4096)]}
 
 
 class _Mod:
@@ -48,6 +51,8 @@ def run(tier, seed, replay=None):
     rep = R.Report(ID, tier, seed)
     rep.rule = RULE; rep.assumptions = list(ASSUMPTIONS)
     lines = [l.rstrip('\n') for l in open(replay) if l.strip() and not l.startswith('#')] if replay else R.gen_rounds(__import__('sys').modules[__name__], tier, seed)
+    bulk_lines = [l for l in lines if l.startswith('bulk ')]
+    lines = [l for l in lines if not l.startswith('bulk ')]
     wd = R.workdir(ID)
     casefile = os.path.join(wd, 'cases-%s-%d.txt' % (tier, seed))
     R.write_cases(casefile, lines)
@@ -72,6 +77,12 @@ def run(tier, seed, replay=None):
         if a != b:
             ndiff += 1
             rep.violations.append(('diff', i, 'C17:%s:backend-mismatch' % l.split()[0], '64-bit backend: %s | 32-bit backend: %s' % (' '.join(a or ['<none>'])[:70], ' '.join(b or ['<none>'])[:70]), l, b))
-    extra = {'force_32bits_compiles_with_crate_lints': compile_ok, 'records_compared': len(lines), 'backend_differences': ndiff,
+    from .. import bulk
+    if replay:
+        plan = bulk.plan_from_replay(bulk_lines)
+    else:
+        plan = [(k, (seed * 1000 + 500 + n) % (1 << 31), 0, c, b) for n, (k, c, b) in enumerate(BULK[tier if tier in BULK else 'quick'])]
+    bcov = bulk.run_differential(rep, 'C17', plan, {'rel': rel, 'f32': f32}, wd, '%s-%d' % (tier, seed), judge='both') if plan else None
+    extra = {'bulk_differential': bcov, 'force_32bits_compiles_with_crate_lints': compile_ok, 'records_compared': len(lines), 'backend_differences': ndiff,
              'workloads': ['C12', 'C13', 'C14', 'C15']}
     return rep.finish(FLOORS, extra)
